@@ -120,8 +120,13 @@ func newRun() *run {
 	g := newGroup()
 	r := &run{g: g, peers: map[string]*peer{}, names: map[*quic.Conn]string{}, objs: map[string]map[string]*quic.Conn{},
 		dials: map[string]*DialResult{}, res: &Result{Fates: map[string]string{}}}
-	r.peers["A"] = newPeer("A", g)
-	r.peers["B"] = newPeer("B", g)
+	// A is the peer with the smaller address (the tie-break variant of the specification keeps A's connection)
+	u1, u2 := listenUDP(), listenUDP()
+	if u1.LocalAddr().String() > u2.LocalAddr().String() {
+		u1, u2 = u2, u1
+	}
+	r.peers["A"] = newPeerOn("A", g, u1)
+	r.peers["B"] = newPeerOn("B", g, u2)
 	return r
 }
 
